@@ -51,6 +51,55 @@ theorem run_sound (strict : Bool) (p : Prog) (hp : (checkL strict p {}).ok = tru
     · cases he
   | next | brk | cont | panic => simp [outcomeOf] at he
 
+/-- all DocNodes bound to document variables -/
+def St.allDocs (st : St) : List Nat := st.env.docs.flatMap (·.2)
+
+/-- **isolation of a checked block started anywhere**: a statement list that passes the ownership check
+    from the EMPTY abstract state (it mutates only what it clones itself), run from ANY state, leaves every
+    object that existed when it started untouched — except documents bound to document variables. -/
+theorem block_isolated (P : List Stmt) (hp : (checkL false P {}).ok = true) (st : St) :
+    st.heap.size ≤ (execL P st).1.heap.size ∧
+    (∀ o, o < st.heap.size → o ∉ st.allDocs → (execL P st).1.heap.get o = st.heap.get o) := by
+  have i : Inv ⟨st.heap.size, false, st.allDocs⟩ st.heap st :=
+    ⟨Nat.le_refl _, Step.refl _ _, fun v o ho => .inr (by
+      simp only [St.docsOf] at ho
+      cases hl : st.env.docs.lookup v with
+      | none => simp [hl] at ho
+      | some os =>
+        simp only [hl, Option.getD_some] at ho
+        exact List.mem_flatMap.mpr ⟨_, lookup_mem hl, ho⟩)⟩
+  have g : Gam ⟨st.heap.size, false, st.allDocs⟩ st.txn {} st :=
+    ⟨fun v hv => by simp [Abs.owns] at hv, fun v hv => by simp [Abs.ownsDocs] at hv,
+     fun h => (by cases h), fun _ => rfl⟩
+  have := sound_execL (cx := ⟨st.heap.size, false, st.allDocs⟩) (t0 := st.txn) (h0 := st.heap) P {} st i g hp
+  exact ⟨this.1.step.size, fun o ho hx => this.1.step.frozen ho ho (.inr hx)⟩
+
+theorem execL_append (P T : List Stmt) (st : St) :
+    execL (P ++ T) st = match execL P st with
+      | (st1, .next) => execL T st1
+      | r => r := by
+  induction P generalizing st with
+  | nil => simp [execL]
+  | cons s ss ih =>
+    simp only [List.cons_append, execL]
+    generalize exec s st = r
+    obtain ⟨st1, sg⟩ := r
+    cases sg <;> simp [ih]
+
+/-- the tail of a batch item: `if err != nil { if ordered { break } else { continue } }`, then the two installs -/
+def itemTail (h : HExpr) : List Stmt :=
+  [.ite .err [.ite (.test "ordered") [.brk] [.cont]] [], .setNs "clone" h "namespace", .setNs "clone" .oplog "oplog"]
+
+theorem itemTail_err (h : HExpr) (st : St) (he : st.env.err = true) :
+    (execL (itemTail h) st).1.heap = st.heap ∧ (execL (itemTail h) st).1.txn = st.txn ∧
+    ((execL (itemTail h) st).2 = .brk ∨ (execL (itemTail h) st).2 = .cont) := by
+  simp only [itemTail, execL, exec, Cond.eval, he, if_true]
+  cases st.popFlag.1 <;> simp [St.popFlag]
+
+theorem itemTail_ok (h : HExpr) (st : St) (he : st.env.err = false) :
+    execL (itemTail h) st = execL [.setNs "clone" h "namespace", .setNs "clone" .oplog "oplog"] st := by
+  simp [itemTail, execL, exec, Cond.eval, he]
+
 /-! ### observation -/
 
 /-- contents of a document node -/
@@ -66,11 +115,17 @@ def obsList (h : Heap) (o : Nat) : Option (List (Option Nat)) :=
   | some (.idx l) => some (l.map (obsDoc h))
   | _ => none
 
-abbrev CollView := Option (Option (List (Option Nat)) × List (String × Option (List (Option Nat))))
+/-- what a collection shows: its documents and, per index name, the documents the index lists -/
+structure CollV where
+  docs : Option (List (Option Nat))
+  idx : List (String × Option (List (Option Nat)))
+  deriving DecidableEq, Repr
+
+abbrev CollView := Option CollV
 
 def obsColl (h : Heap) (o : Nat) : CollView :=
   match h.get o with
-  | some (.coll s idxs) => some (obsList h s, idxs.map fun p => (p.1, obsList h p.2))
+  | some (.coll s idxs) => some ⟨obsList h s, idxs.map fun p => (p.1, obsList h p.2)⟩
   | _ => none
 
 abbrev CatView := Option (List (Nat × CollView))
@@ -142,7 +197,7 @@ theorem obsColl_congr {h h' : Heap} {o : Nat} (e : ∀ p ∈ reachColl h o, h'.g
     cases x with
     | coll s idxs =>
       simp only [reachColl, hg] at e
-      simp only [Option.some.injEq, Prod.mk.injEq]
+      simp only [Option.some.injEq, CollV.mk.injEq]
       refine ⟨obsList_congr fun p hp => e p (by simp [hp]), List.map_congr_left fun q hq => ?_⟩
       rw [obsList_congr fun p hp => e p (List.mem_cons_of_mem _ (List.mem_append_right _
         (List.mem_flatMap.mpr ⟨q, hq, hp⟩)))]
